@@ -118,10 +118,16 @@ class FS:
         self.log = []
 
     # ---- fault counter
+    # fault positions = the serializer's value / array / byte writes and the zip (or directory)
+    # assembly, as the property quantifies; removals and clean-up are never made to fail
+    NOFAULT = ("remove", "rmtree", "makedirs", "delete", "mkdtemp", "mkstemp")
+
     def tick(self, what=""):
+        if what in self.NOFAULT:
+            return
         self.n += 1
         if self.n == self.k:
-            raise Fault("injected fault at a mutating operation")
+            raise Fault("injected fault at a write operation")
 
     # ---- raw state
     def snapshot(self):
@@ -173,9 +179,11 @@ class FS:
         self.tick("remove")
         del self.files[p]
 
-    def rmtree(self, p):
+    def rmtree(self, p, ignore_errors=False):
         p = _p(p)
         if p not in self.dirs:
+            if ignore_errors:
+                return
             raise FileNotFoundError(str(p))
         self.tick("rmtree")
         self._rm_tree(p)
@@ -202,11 +210,51 @@ class FS:
             out.append((d, subs, fns))
         return out
 
-    def mkdtemp(self):
+    def mkdtemp(self, suffix="", prefix="tmp", dir=None):
         self._tmp += 1
-        p = P(("tmp", f"t{self._tmp}"))
+        if dir is None:
+            p = P(("tmp", f"t{self._tmp}"))
+        else:
+            p = _p(dir) + (f"{prefix}{self._tmp:04d}{suffix}",)
+            if not self.isdir(_p(dir)):
+                raise FileNotFoundError(str(dir))
         self._mkparents(p)
         return p
+
+    def mkstemp(self, suffix="", prefix="tmp", dir=None):
+        self._tmp += 1
+        d = P(("tmp",)) if dir is None else _p(dir)
+        if not self.isdir(d):
+            raise FileNotFoundError(str(d))
+        p = d + (f"{prefix}{self._tmp:04d}{suffix}",)
+        self._put(p, b"")
+        return 3, p
+
+    def replace(self, a, b):
+        """os.replace / os.rename: atomic; a directory can only replace an empty directory"""
+        a, b = _p(a), _p(b)
+        if not self.exists(a):
+            raise FileNotFoundError(str(a))
+        if self.isdir(a):
+            if b in self.files:
+                raise NotADirectoryError(str(b))
+            if b in self.dirs and any(_under(x, b) for x in list(self.files) + list(self.dirs)):
+                raise OSError("Directory not empty: " + str(b))
+        elif b in self.dirs:
+            raise IsADirectoryError(str(b))
+        self.tick("rename")
+        self._move(a, b)
+
+    @untraced
+    def _move(self, a, b):
+        if a in self.files:
+            self.files[b] = self.files.pop(a)
+            return
+        for f in [f for f in self.files if _under(f, a)]:
+            self.files[b + f[len(a):]] = self.files.pop(f)
+        for d in [d for d in self.dirs if d == a or _under(d, a)]:
+            self.dirs.discard(d)
+            self.dirs.add(b + d[len(a):])
 
 
 class _TmpDir:
@@ -457,11 +505,25 @@ def install(fs):
         assert full[:len(start)] == start
         return P(full[len(start):])
 
+    def dirname(p):
+        p = _p(p)
+        return P(p[:-1]) if isinstance(p, P) and len(p) else p
+
+    def basename(p):
+        return _p(p)[-1]
+
+    def abspath(p):
+        return _p(p)
+
     os_path = types.SimpleNamespace(exists=fs.exists, isdir=fs.isdir, join=join, relpath=relpath,
-                                    splitext=posixpath.splitext)
-    os_ = types.SimpleNamespace(path=os_path, remove=fs.remove, walk=fs.walk, makedirs=fs.makedirs)
-    shutil_ = types.SimpleNamespace(rmtree=fs.rmtree)
-    tempfile_ = types.SimpleNamespace(TemporaryDirectory=lambda: _TmpDir(fs))
+                                    splitext=lambda p: posixpath.splitext(str(p)), dirname=dirname,
+                                    basename=basename, abspath=abspath, isfile=lambda p: _p(p) in fs.files)
+    os_ = types.SimpleNamespace(path=os_path, remove=fs.remove, walk=fs.walk, makedirs=fs.makedirs,
+                                replace=fs.replace, rename=fs.replace, close=lambda fd: None, unlink=fs.remove,
+                                getpid=lambda: 4242, fspath=lambda p: str(p))
+    shutil_ = types.SimpleNamespace(rmtree=fs.rmtree, move=fs.replace)
+    tempfile_ = types.SimpleNamespace(TemporaryDirectory=lambda *a, **k: _TmpDir(fs), mkdtemp=fs.mkdtemp,
+                                      mkstemp=fs.mkstemp)
 
     def group(store=None, overwrite=False):
         d = _p(store)
